@@ -202,8 +202,6 @@ Proof.
 Qed.
 
 (* ---------- [expected] in terms of propositions ---------- *)
-Definition no_two (q : option N) (h : list vote) : Prop :=
-  forall p p', reaches q (spec_tally h p) = true -> reaches q (spec_tally h p') = true -> p = p'.
 
 Lemma expected_eq q h x : reaches q (spec_eqw (h ++ [x])) = true -> expected q h x = EPanic "eq".
 Proof. intros H. unfold expected. rewrite H. reflexivity. Qed.
